@@ -330,6 +330,15 @@ class Extractor {
           d["t"] = typeStr(VD->getType());
           d["ct"] = canonStr(VD->getType());
           if (VD->isStaticLocal()) d["static"] = true;
+          if (const auto *VAT = dyn_cast<VariableArrayType>(VD->getType().getCanonicalType().getTypePtr())) {
+            // variable-length array: the run-time element count is part of the declaration
+            if (const Expr *SE = VAT->getSizeExpr()) {
+              int sid = emitStmt(fs, SE);
+              d["vla"] = sid;
+              d["esz"] = (int64_t)Ctx.getTypeSizeInChars(VAT->getElementType()).getQuantity();
+              ch.push_back(sid);
+            }
+          }
           if (VD->hasInit()) {
             int cid = emitStmt(fs, VD->getInit());
             d["init"] = cid;
